@@ -132,6 +132,10 @@ impl HashIndex {
     {
         unimplemented!()
     }
+
+    // scc::HashMap::scan: runs the closure on every entry (which entries there are is not modelled)
+    #[verifier::external_body]
+    pub fn scan<F: Fn(&Vec<u8>, &Arc<Record>)>(&self, f: F) { unimplemented!() }
 }
 
 #[verifier::external_body]
